@@ -113,6 +113,11 @@ func getter(ctx graphql.FieldContext) (interface{}, error) {
 	}
 	it := r.items[g.item]
 	if r.syncMode {
+		// only for the field with the two competing failures (first getter through a promise, second
+		// synchronously): everywhere else the alternative reference is the reference
+		if r.altSync && !it.ok && call == 0 && len(spec.getters) == 2 && spec.getters[1].item < 0 && spec.getters[1].fail {
+			return edgesOf(spec, g.edges), nil
+		}
 		return r.valueOf(it)
 	}
 	r.noteCreate(it)
